@@ -25,6 +25,8 @@ pub struct VecCall<T: Elem> {
     pub prefill: u64,
     /// Extra identity mixed into the case hash (e.g. placement, when placement is the point).
     pub salt: u64,
+    /// Library calls performed per evaluation of this case (searches that run it several times).
+    pub weight: u64,
 }
 
 impl<T: Elem> VecCall<T> {
@@ -40,6 +42,7 @@ impl<T: Elem> VecCall<T> {
             poison: 0xA5,
             prefill: 0xC3C3_C3C3_C3C3_C3C3,
             salt: 0,
+            weight: 1,
         }
     }
 
@@ -316,6 +319,10 @@ impl<T: Elem> Case for VecCall<T> {
         mix(&mut h, self.res_len as u64);
         mix(&mut h, self.salt);
         h
+    }
+
+    fn calls(&self) -> u64 {
+        self.weight
     }
 
     fn shrink(&self) -> Vec<Self> {
